@@ -47,8 +47,8 @@ main = simple_main(
     build_cases,
     "c20_flips",
     {
-        "quick": {"c20_availability_checks": 50000, "c20_flips": 300, "c20_on_shift_steps": 10000, "c20_dispatches_of_human_drivers": 300},
-        "thorough": {"c20_availability_checks": 1000000, "c20_flips": 5000, "c20_on_shift_steps": 200000, "c20_dispatches_of_human_drivers": 5000},
+        "quick": {"c20_availability_checks": 50000, "c20_flips": 300, "c20_on_shift_steps": 10000, "c20_dispatches_of_human_drivers": 300, "c20_drivers_joined_while_their_shift_was_running": 10},
+        "thorough": {"c20_availability_checks": 1000000, "c20_flips": 5000, "c20_on_shift_steps": 200000, "c20_dispatches_of_human_drivers": 5000, "c20_drivers_joined_while_their_shift_was_running": 40},
     },
     "generated shift tables (random [start,end) incl. wrap past midnight, empty shifts, ends touching step boundaries, second granularity) x start times x step lengths that do not divide a day, runs of several days with requests "
     "throughout; an integer seconds-of-day model decides availability at the start of every step and is compared with driver_state.available, the driver_schedule events of the step and the Dispatcher's proposals. "
